@@ -42,6 +42,9 @@ def matches(v, k):
             have = json.dumps(have, sort_keys=True) if not isinstance(have, str) else have
             if want not in have:
                 return False
+        elif key.endswith("_in"):
+            if v.get(key[:-3]) not in want:
+                return False
         elif key == "text_contains":
             if not any(want in t.get("text", "") for t in v.get("_texts", [])):
                 return False
